@@ -149,9 +149,18 @@ const MAX_POLLS: u64 = 200_000_000;
 /// `<kind>:<delay>:<job id>` (kind 0 promise job, 1 generic job, 2 timeout job with that delay in ms).
 /// Section i+1 = job i: `<adv> <err> <kind>:<delay>:<id> ...` -- when it runs the job logs its id, moves the
 /// clock forward by <adv> ms, enqueues the listed jobs in order, and returns Err iff <err> = 1.
+/// Deepening (coq/C16/DeepLoopCase_C16.v): kind 3 = interval job with that period; between <err> and the enqueue
+/// list a job section may carry `S` (request a stop through the executor's cancellation flag) and `C<ticket>`
+/// (revoke the cancellation token of the clock job with that ticket, now or as soon as it is created).
 struct LoopSpec {
     init: Vec<(u8, u64, usize)>,
-    jobs: Vec<(u64, bool, Vec<(u8, u64, usize)>)>,
+    jobs: Vec<LoopBeh>,
+    /// cancellation tokens of the clock jobs, by ticket
+    tokens: RefCell<std::collections::HashMap<usize, boa_engine::job::CancellationToken>>,
+    /// tickets whose cancellation was requested
+    cancel_req: RefCell<std::collections::HashSet<usize>>,
+    /// a job requested a stop and the executor has not been seen to consume it yet
+    stop_seen: Cell<bool>,
     clock: Rc<FixedClock>,
     /// executed jobs: (ticket given at enqueue time, job id, kind)
     log: RefCell<Vec<(usize, usize, u8)>>,
@@ -159,6 +168,15 @@ struct LoopSpec {
     next: Cell<usize>,
     /// number of promise jobs enqueued so far
     penq: Cell<usize>,
+}
+
+#[derive(Clone)]
+struct LoopBeh {
+    adv: u64,
+    err: bool,
+    stop: bool,
+    cancel: Vec<usize>,
+    new: Vec<(u8, u64, usize)>,
 }
 
 fn parse_enq(s: &str) -> Option<(u8, u64, usize)> {
@@ -177,12 +195,24 @@ fn parse_loop_spec(src: &str) -> Option<LoopSpec> {
         let mut w = sec.split_whitespace();
         let adv: u64 = w.next()?.parse().ok()?;
         let err = w.next()? == "1";
-        let new = w.map(parse_enq).collect::<Option<Vec<_>>>()?;
-        jobs.push((adv, err, new));
+        let mut beh = LoopBeh { adv, err, stop: false, cancel: Vec::new(), new: Vec::new() };
+        for tok in w {
+            if tok == "S" {
+                beh.stop = true;
+            } else if let Some(t) = tok.strip_prefix('C') {
+                beh.cancel.push(t.parse().ok()?);
+            } else {
+                beh.new.push(parse_enq(tok)?);
+            }
+        }
+        jobs.push(beh);
     }
     Some(LoopSpec {
         init,
         jobs,
+        tokens: RefCell::new(std::collections::HashMap::new()),
+        cancel_req: RefCell::new(std::collections::HashSet::new()),
+        stop_seen: Cell::new(false),
         clock: Rc::new(FixedClock::from_millis(0)),
         log: RefCell::new(Vec::new()),
         next: Cell::new(0),
@@ -195,8 +225,14 @@ fn loop_enqueue(spec: &Rc<LoopSpec>, e: (u8, u64, usize), ctx: &mut Context) {
     let sp = spec.clone();
     let ticket = spec.next.get();
     spec.next.set(ticket + 1);
-    let kind = k.min(2);
+    let kind = k.min(3);
     let f = move |ctx: &mut Context| -> JsResult<JsValue> { loop_job(&sp, ticket, c, kind, ctx) };
+    let register = |tok: boa_engine::job::CancellationToken, ctx: &mut Context| {
+        if spec.cancel_req.borrow().contains(&ticket) {
+            tok.cancel(ctx);
+        }
+        spec.tokens.borrow_mut().insert(ticket, tok);
+    };
     match k {
         0 => {
             spec.penq.set(spec.penq.get() + 1);
@@ -206,18 +242,39 @@ fn loop_enqueue(spec: &Rc<LoopSpec>, e: (u8, u64, usize), ctx: &mut Context) {
             let realm = ctx.realm().clone();
             ctx.enqueue_job(Job::GenericJob(GenericJob::new(f, realm)))
         }
-        _ => ctx.enqueue_job(Job::TimeoutJob(TimeoutJob::new(NativeJob::new(f), d))),
+        2 => {
+            let job = TimeoutJob::new(NativeJob::new(f), d);
+            register(job.cancellation_token().clone(), ctx);
+            ctx.enqueue_job(Job::TimeoutJob(job))
+        }
+        _ => {
+            let job = boa_engine::job::IntervalJob::new(boa_engine::job::NativeJobFn::new(f), d);
+            register(job.cancellation_token().clone(), ctx);
+            ctx.enqueue_job(Job::IntervalJob(job))
+        }
     }
 }
 
 fn loop_job(spec: &Rc<LoopSpec>, ticket: usize, id: usize, kind: u8, ctx: &mut Context) -> JsResult<JsValue> {
     spec.log.borrow_mut().push((ticket, id, kind));
-    let Some((adv, err, new)) = spec.jobs.get(id).cloned() else { return Ok(JsValue::undefined()) };
-    spec.clock.forward(adv);
-    for e in new {
+    let Some(beh) = spec.jobs.get(id).cloned() else { return Ok(JsValue::undefined()) };
+    spec.clock.forward(beh.adv);
+    if beh.stop {
+        spec.stop_seen.set(true);
+        let ex = ctx.downcast_job_executor::<SimpleJobExecutor>().expect("simple executor");
+        ex.get_cancellation_token().store(true, std::sync::atomic::Ordering::Relaxed);
+    }
+    for t in &beh.cancel {
+        spec.cancel_req.borrow_mut().insert(*t);
+        let tok = spec.tokens.borrow().get(t).cloned();
+        if let Some(tok) = tok {
+            tok.cancel(ctx);
+        }
+    }
+    for e in beh.new {
         loop_enqueue(spec, e, ctx);
     }
-    if err {
+    if beh.err {
         Err(JsNativeError::typ().with_message("job failed").into())
     } else {
         Ok(JsValue::undefined())
@@ -241,8 +298,14 @@ fn run_loop_case(params: &str, src: &str) -> String {
         let fut = ex.clone().run_jobs_async(&cell);
         drive(fut, max.max(1))
     };
+    let stop_flag = ex.get_cancellation_token();
     let show = |r: &Option<JsResult<()>>, ctx: &mut Context| match r {
         None => "J:fuel".to_string(),
+        // Ok because a stop request was consumed (flag reset, queues cleared), not because the queues ran dry
+        Some(Ok(())) if spec.stop_seen.get() && !stop_flag.load(std::sync::atomic::Ordering::Relaxed) => {
+            spec.stop_seen.set(false);
+            "J:stopped".to_string()
+        }
         Some(r) => jobs_result(r, ctx),
     };
     let (r1, polls1) = phase(&mut ctx, p[0]);
